@@ -338,6 +338,7 @@ func (e *Enc) encodeTop(fn *ssa.Function, spec *FuncSpec, caseIdx int) {
 		params = append(params, v)
 	}
 	e.h0 = h0
+	e.hints = spec.Hints
 	e.setupLocks(spec)
 	fr := e.newFrame(fn, nil, params, h0)
 	fr.isTop = true
